@@ -238,6 +238,9 @@ func streamObs(s *StreamM) Obs {
 			}
 		} else {
 			cl = append(cl, "dump")
+			if len(it.After) == 0 && i+1 < len(s.Items) && s.Items[i+1].Race != nil {
+				cl = append(cl, "report_right_after_dump")
+			}
 		}
 		if bytes.Count(it.After, []byte("\n")) >= 2 {
 			nt = true
